@@ -8,6 +8,9 @@ from .mirparse import scan, match_close, split_top
 _IMPL_AT = re.compile(r"<impl at ([^:>]+):(\d+):(\d+): (\d+):(\d+)>")
 
 
+_SPAN = re.compile(r"@([^ }]+:\d+:\d+: \d+:\d+)")
+
+
 def strip_generics(p):
     """Remove every <...> group that is a generic-argument list (`::<..>` or `Type<..>`),
     but keep a leading `<T as Trait>` qualified-self group (with inner generics stripped)."""
@@ -28,9 +31,19 @@ def strip_generics(p):
                     out.append("<" + strip_generics(inner) + ">")
                 i = j + 1
                 continue
+            inner = p[i + 1 : j]
+            prev = "".join(out).rstrip(":").split("::")[-1] if out else ""
+            if inner.startswith("impl ") and not (prev[:1].isupper()):
+                if inner.startswith("impl ["):
+                    out.append("<impl [T]>")
+                else:
+                    out.append("<" + strip_generics(inner) + ">")
+                i = j + 1
+                continue
             # generic args: drop; also drop a preceding "::"
-            if out and out[-1].endswith("::"):
-                out[-1] = out[-1][:-2]
+            if len(out) >= 2 and out[-1] == ":" and out[-2] == ":":
+                out.pop()
+                out.pop()
             i = j + 1
             continue
         out.append(c)
@@ -166,6 +179,8 @@ class SourceIndex:
                         if not part:
                             continue
                         fm = re.match(r"(?:pub(?:\([^)]*\))?\s+)?(r#)?(\w+)\s*:\s*(.*)$", part, re.S)
+                        if fm and any("cfg(test)" in x for x in fattrs):
+                            continue
                         if fm:
                             fields.append((fm.group(2), " ".join(fm.group(3).split()), fattrs))
                 else:
@@ -194,8 +209,34 @@ class SourceIndex:
                 return d
         return None
 
+    def _lookup(self, table, ty):
+        """Look a struct/enum up by (possibly fully qualified) type text; resolves short-name
+        collisions through the module path."""
+        t = strip_generics(ty.strip().lstrip("&")) if ("<" in ty or "::" in ty) else ty.strip()
+        segs = t.split("::")
+        name = segs[-1]
+        if "@" in ty:
+            return table.get(ty)
+        if name not in self.dups or len(segs) == 1:
+            return table.get(name)
+        mod = "/".join(segs[:-1])
+        best = None
+        for k in table:
+            if k.startswith(name + "@"):
+                rel = k.split("@", 1)[1]
+                r = re.sub(r"^(acts/src|store/sqlite/src)/", "", rel)
+                r = re.sub(r"(/mod)?\.rs$", "", r)
+                if r == mod:
+                    return table[k]
+                if r.endswith(mod) or mod.endswith(r):
+                    best = table[k]
+        return best if best is not None else table.get(name)
+
     def struct_fields(self, name):
-        return self.structs.get(name)
+        return self._lookup(self.structs, name)
+
+    def enum_def(self, name):
+        return self._lookup(self.enums, name)
 
 
 # Well-known std enums: name -> {variant: discr}
@@ -225,13 +266,14 @@ class Program:
         self.impl_headers = {}  # impl-at string -> (trait or None, self type text, generics)
         self.generic_names = {}  # item name -> [names]
         self.derived_impls = set()
+        self.closure_spans = {}
         self._index_items()
 
     def _impl_header(self, key, rel, l1, c1, l2, c2):
         if key in self.impl_headers:
             return self.impl_headers[key]
         ls = self.src.lines(rel)
-        res = (None, None, [])
+        res = (None, None, [], None)
         if ls is not None:
             head = self.src.span_text(rel, l1, c1, l2, c2)
             if head.startswith("impl"):
@@ -250,7 +292,7 @@ class Program:
                     if m:
                         ty = m.group(1)
                         break
-                res = (trait, ty, [])
+                res = (trait, ty, [], None)
                 self.derived_impls.add(key)
         self.impl_headers[key] = res
         return res
@@ -275,9 +317,13 @@ class Program:
         else:
             trait = None
             ty = s
+        targs = None
         if trait is not None:
+            k2 = trait.find("<")
+            if k2 >= 0 and trait.endswith(">"):
+                targs = short_type(trait[k2 + 1 : -1])
             trait = strip_generics(trait).split("::")[-1]
-        return (trait, ty, generics)
+        return (trait, ty, generics, targs)
 
     def _index_items(self):
         for name, it in self.items.items():
@@ -291,10 +337,14 @@ class Program:
                 if m:
                     t = m.group(1)
                 self.closures.setdefault(t, it)
+                ms = _SPAN.search(t)
+                if ms:
+                    self.closure_spans.setdefault(ms.group(1), it)
             m = _IMPL_AT.search(name)
             if m and "{closure#" not in name and "::promoted[" not in name:
                 rel, l1, c1, l2, c2 = m.group(1), int(m.group(2)), int(m.group(3)), int(m.group(4)), int(m.group(5))
-                trait, ty, generics = self._impl_header(m.group(0), rel, l1, c1, l2, c2)
+                trait, ty, generics, targs = self._impl_header(m.group(0), rel, l1, c1, l2, c2)
+                it.targs = targs
                 rest = name[m.end() :]
                 if rest.startswith("::") and "::" not in rest[2:]:
                     method = rest[2:]
@@ -303,15 +353,33 @@ class Program:
                         self.impls.setdefault(key, []).append(it)
 
     # ------------------------------------------------------------------ resolution
+    def closure_item(self, ty):
+        it = self.closures.get(ty)
+        if it is None:
+            m = _SPAN.search(ty)
+            if m:
+                it = self.closure_spans.get(m.group(1))
+        return it
+
     def is_derived(self, item):
         m = _IMPL_AT.search(item.name)
         return bool(m) and m.group(0) in self.derived_impls
 
-    def find_impl(self, self_ty, trait, method):
+    def find_impl(self, self_ty, trait, method, targs=None):
         """self_ty: type text as printed by MIR (fully qualified, with generics)."""
         st = short_type(self_ty)
         cands = self.impls.get((st, trait, method))
         if cands:
+            if targs is not None and len(cands) > 1:
+                ta = short_type(targs)
+                ex = [c for c in cands if getattr(c, "targs", None) == ta]
+                if ex:
+                    return self._pick(ex, self_ty)
+                return None
+            if targs is not None and len(cands) == 1 and getattr(cands[0], "targs", None) not in (None, short_type(targs)):
+                # a single impl with different trait arguments: accept only generic parameters
+                if not re.fullmatch(r"[A-Z]\w{0,3}", cands[0].targs or ""):
+                    return None
             return self._pick(cands, self_ty)
         # generic impl: `impl<T> DbCollection for Collect<T>`: try with args replaced by T
         head = st.split("<")[0]
@@ -344,7 +412,7 @@ class Program:
         rel = None
         if m:
             rel = m.group(1)
-            trait, ty, generics = self._impl_header(m.group(0), rel, int(m.group(2)), int(m.group(3)), int(m.group(4)), int(m.group(5)))
+            trait, ty, generics, targs = self._impl_header(m.group(0), rel, int(m.group(2)), int(m.group(3)), int(m.group(4)), int(m.group(5)))
             names += generics
             start = int(m.group(2))
         else:
